@@ -16,6 +16,7 @@ from .common import MachineryError, REPLAYS, WORK, seed_from_env
 
 GROUP_OF = {
     "C01": "book", "C02": "book", "C03": "book", "C04": "book", "C08": "book", "C19": "book",
+    "C05": "run", "C06": "run", "C09": "run", "C10": "run", "C11": "run", "C13": "run",
 }
 
 
@@ -23,6 +24,9 @@ def _group(name):
     if name == "book":
         from . import group_book
         return group_book
+    if name == "run":
+        from . import group_run
+        return group_run
     raise MachineryError("no group " + name)
 
 
